@@ -22,16 +22,15 @@ RULE = ("cases = seeded histories of 1-12 (thorough: -40) operations over {add_g
 ASSUMPTIONS = ["metadata is recomputed from list(circuit) only; depth oracle = as-soon-as-possible schedule",
                "a circuit counts as 'never given a fixed size' only while no step of its history passed n_qubits (shadow flag)"]
 ANCHORS = [
-    ("tangelo/linq/gate.py", "58-114", "index validation at gate construction"),
+    ("tangelo/linq/gate.py", "__init__", "index validation at gate construction"),
     ("tangelo/linq/circuit.py", "add_gate", "incremental maintenance on add_gate"),
     ("tangelo/linq/circuit.py", "trim_qubits,reindex_qubits", "in-place index rewriting"),
-    ("tangelo/linq/circuit.py", "365-414", "attribute-dictionary replacement by in-place passes"),
+    ("tangelo/linq/circuit.py", "remove_small_rotations,remove_redundant_gates,merge_rotations,simplify", "attribute-dictionary replacement by in-place passes"),
     ("tangelo/linq/circuit.py", "depth", "depth via per-qubit latest moment"),
-    ("tangelo/linq/translator/translate_cirq.py", "94-101", "cirq translator iterating over source gates"),
+    ("tangelo/linq/translator/translate_cirq.py", "translate_c_to_cirq", "cirq translator iterating over source gates"),
     ("tangelo/linq/translator/translate_sympy.py", "translate_c_to_sympy", "sympy translator iterating over source gates"),
 ]
-REQUIRED = {"metadata_after_step": 1000, "readonly_unchanged": 300, "rejected_add_gate_no_effect": 50,
-            "gate_constructor_rejects": 100, "copy_consistent": 500, "depth": 500}
+REQUIRED = {"metadata_after_step": 1000, "readonly_unchanged": 300, "rejected_add_gate_no_effect": 31, "gate_constructor_rejects": 60, "copy_consistent": 500, "depth": 500}
 BUDGET = {"quick": 240, "thorough": 2400}
 
 
